@@ -1,0 +1,94 @@
+//go:build verif
+
+// Contracts for deductive verification (see /verif/DESIGN.md). This file is comment-only: with
+// the build tag off it is not compiled, with the tag on it compiles to nothing. The //@ blocks
+// are read by /verif/vcgen, which generates verification conditions from the SSA of the real
+// function bodies in this directory and discharges them with z3 / cvc5.
+
+package libinjection
+
+// =====================================================================================
+// HTML5 tokenizer
+// =====================================================================================
+
+//@ spec isWS(c int) bool = c == 9 || c == 10 || c == 11 || c == 12 || c == 13 || c == 32
+//@ spec isWS0(c int) bool = c == 0 || isWS(c)
+//@ spec isAlpha(c int) bool = (c >= 'a' && c <= 'z') || (c >= 'A' && c <= 'Z')
+//@ spec wfH0(h *h5State) bool = 0 <= h.pos && h.pos <= h.len && h.len == len(h.s)
+//@ spec quoteState(h *h5State) bool = h.state == h.stateAttributeValueSingleQuote || h.state == h.stateAttributeValueDoubleQuote || h.state == h.stateAttributeValueBackQuote
+//@ spec knownState(h *h5State) bool = h.state == h.stateEOF || h.state == h.stateData || h.state == h.stateTagOpen ||
+//@      h.state == h.stateBeforeAttributeName || h.state == h.stateSelfClosingStartTag || h.state == h.stateTagNameClose ||
+//@      h.state == h.stateAfterAttributeName || h.state == h.stateBeforeAttributeValue ||
+//@      h.state == h.stateAfterAttributeValueQuotedState || quoteState(h)
+//@ spec wfH(h *h5State) bool = wfH0(h) && knownState(h) &&
+//@      (h.state == h.stateSelfClosingStartTag ==> h.pos >= 1) &&
+//@      (h.state == h.stateTagNameClose ==> h.pos < h.len && h.s[h.pos] == '>') &&
+//@      (quoteState(h) ==> h.pos == 0)
+//@ spec tokOff(h *h5State) int = off(h.tokenStart) - off(h.s)
+//@ spec tokOK(h *h5State) bool = suffixOf(h.tokenStart, h.s) && 0 <= h.tokenLen && h.tokenLen <= len(h.tokenStart)
+//@ spec lowB(h *h5State) int = h.state == h.stateEOF ? h.len : ((h.state == h.stateSelfClosingStartTag || h.state == h.stateTagOpen) ? h.pos - 1 : h.pos)
+//@ spec potQ(h *h5State) int = lowB(h) - (h.state == h.stateBeforeAttributeValue ? 1 : 0) + (quoteState(h) ? 0 : 1)
+//@ spec unchangedH(h *h5State) bool = h.pos == old(h.pos) && h.state == old(h.state) && h.isClose == old(h.isClose)
+
+//@ func (*h5State).skipWhite
+//@   requires wfH0(h)
+//@   modifies h.pos
+//@   ensures  wfH0(h) && old(h.pos) <= h.pos
+//@   ensures  forall k in [old(h.pos), h.pos): isWS0(h.s[k])
+//@   ensures  result == -1 ==> h.pos == h.len
+//@   ensures  result != -1 ==> h.pos < h.len && result == h.s[h.pos] && !isWS0(result)
+//@   loop 1 invariant old(h.pos) <= h.pos && h.pos <= h.len
+//@   loop 1 invariant forall k in [old(h.pos), h.pos): isWS0(h.s[k])
+//@   loop 1 decreases h.len - h.pos
+
+//@ func (*h5State).stateEOF
+//@   modifies nothing
+//@   rank     1
+//@   ensures  !result
+
+// ---- <! .. > and <? .. > : ends at the first '>'
+//@ spec postBogus(h *h5State, p int) bool = wfH0(h) && tokOK(h) && tokOff(h) == p && h.tokenType == html5TypeTagComment &&
+//@      (h.state == h.stateEOF || h.state == h.stateData) &&
+//@      (forall k in [p, p + h.tokenLen): h.s[k] != '>') &&
+//@      (h.state == h.stateEOF  ==> h.tokenLen == h.len - p && h.pos == h.len) &&
+//@      (h.state == h.stateData ==> p + h.tokenLen < h.len && h.s[p + h.tokenLen] == '>' && h.pos == p + h.tokenLen + 1)
+//@ func (*h5State).stateBogusComment
+//@   requires wfH0(h)
+//@   modifies h.pos, h.state, h.tokenStart, h.tokenLen, h.tokenType
+//@   rank     1
+//@   ensures  result
+//@   ensures  [C17] @first_terminator postBogus(h, old(h.pos))
+
+// ---- <% .. %> : ends at the first "%>"
+//@ spec pctAt(h *h5State, k int) bool = k + 1 < h.len && h.s[k] == '%' && h.s[k+1] == '>'
+//@ spec postBogus2(h *h5State, p int) bool = wfH0(h) && tokOK(h) && tokOff(h) == p && h.tokenType == html5TypeTagComment &&
+//@      (h.state == h.stateEOF || h.state == h.stateData) &&
+//@      (forall k in [p, p + h.tokenLen): !pctAt(h, k)) &&
+//@      (h.state == h.stateEOF  ==> h.tokenLen == h.len - p && h.pos == h.len) &&
+//@      (h.state == h.stateData ==> pctAt(h, p + h.tokenLen) && h.pos == p + h.tokenLen + 2)
+//@ func (*h5State).stateBogusComment2
+//@   requires wfH0(h)
+//@   modifies h.pos, h.state, h.tokenStart, h.tokenLen, h.tokenType
+//@   rank     1
+//@   ensures  result
+//@   ensures  [C17] @first_terminator postBogus2(h, old(h.pos))
+//@   loop 1 invariant old(h.pos) <= pos && pos <= h.len && unchangedH(h)
+//@   loop 1 invariant [C17] forall k in [old(h.pos), pos): !pctAt(h, k)
+//@   loop 1 decreases h.len - pos
+
+// ---- <![CDATA[ .. ]]> : ends at the first "]]>"
+//@ spec cdEndAt(h *h5State, k int) bool = k + 2 < h.len && h.s[k] == ']' && h.s[k+1] == ']' && h.s[k+2] == '>'
+//@ spec postCData(h *h5State, p int) bool = wfH0(h) && tokOK(h) && tokOff(h) == p && h.tokenType == html5TypeDataText &&
+//@      (h.state == h.stateEOF || h.state == h.stateData) &&
+//@      (forall k in [p, p + h.tokenLen): !cdEndAt(h, k)) &&
+//@      (h.state == h.stateEOF  ==> h.tokenLen == h.len - p && h.pos == p) &&
+//@      (h.state == h.stateData ==> cdEndAt(h, p + h.tokenLen) && h.pos == p + h.tokenLen + 3)
+//@ func (*h5State).stateCData
+//@   requires wfH0(h)
+//@   modifies h.pos, h.state, h.tokenStart, h.tokenLen, h.tokenType
+//@   rank     1
+//@   ensures  result
+//@   ensures  [C17] @first_terminator postCData(h, old(h.pos))
+//@   loop 1 invariant old(h.pos) <= pos && pos <= h.len && unchangedH(h)
+//@   loop 1 invariant [C17] forall k in [old(h.pos), pos): !cdEndAt(h, k)
+//@   loop 1 decreases h.len - pos
